@@ -68,6 +68,10 @@ def tmpl(I, name, v=2):
         return c(b'ACK [5@0] {x} ') + hole(I, 'm', 1) + c(b'\nvolume: ') + hole(I, 'v', 1) + c(b'\nstate: stop\nOK\n')
     if name == 'listerr':
         return c(b'a: b\nlist_OK\nc: ') + hole(I, 'v', 1) + c(b'\nACK [5@1] {x} ') + hole(I, 'm', 1) + c(b'\n')
+    if name == 'listbin':       # a binary blob in a later frame of a list reply (the frames completed before it stay)
+        return c(b'a: ') + hole(I, 'v', 1) + c(b'\nlist_OK\nsize: 2\nbinary: 2\n') + hole(I, 'p', 2) + c(b'\nlist_OK\nb: c\nlist_OK\nOK\n')
+    if name == 'ackempty':      # an error response whose message text is empty, then the next reply
+        return c(b'ACK [') + hole(I, 'c', 1, 48, 57) + c(b'@0] {') + hole(I, 'n', 1) + c(b'} \nx: y\nOK\n')
     if name == 'fielderr':      # a single command that fails after partial output (no list): the fields before the ACK are not a frame
         return c(b'file: ') + hole(I, 'v', 1) + c(b'\nTitle: ') + hole(I, 'w', 1) + c(b'\nACK [50@0] {lsinfo} ') + hole(I, 'm', 1) + c(b'\nOK\n')
     if name == 'two':
@@ -82,7 +86,7 @@ def tmpl(I, name, v=2):
         return c(b'binary: 20\n') + hole(I, 'p', 2) + c(b'ABCDEFGHIJKLMNOPQR\nOK\nk: v\nOK\n')
     raise KeyError(name)
 
-TEMPLATES_WF = ['field', 'keys', 'field2', 'ack', 'ackthen', 'fielderr', 'binary', 'bin2', 'list', 'list4', 'bin0', 'listerr', 'two', 'okok', 'long', 'longbin']
+TEMPLATES_WF = ['field', 'keys', 'field2', 'ack', 'ackthen', 'fielderr', 'listbin', 'ackempty', 'binary', 'bin2', 'list', 'list4', 'bin0', 'listerr', 'two', 'okok', 'long', 'longbin']
 
 # ---------------------------------------------------------------------------- sessions
 def run_session(I, flavour, body, cuts, cap, max_receives=4, greeting=GREETING, pending=False, interrupt_at=None):
@@ -146,7 +150,7 @@ def instances_for(prop, tier, seed):
     elif prop == 'C02':
         for tname in TEMPLATES_WF + (['free4'] if q else ['free4', 'free5', 'free6']):
             # the long templates have many split points: their segmentation plans are distributed over several instances (workers)
-            parts = 4 if tname in ('long', 'longbin') else (2 if tname in ('list4', 'two', 'listerr', 'field2', 'bin0', 'ackthen', 'fielderr', 'bin2') else 1)
+            parts = 4 if tname in ('long', 'longbin') else (2 if tname in ('list4', 'two', 'listerr', 'field2', 'bin0', 'ackthen', 'fielderr', 'listbin', 'bin2') else 1)
             for part in range(parts):
                 out.append({'t': tname, 'mode': 'splits', 'cap': 8, 'v': 1 if q else 2, 'astep': 3 if q else 1, 'part': part, 'parts': parts})
             if not q:
